@@ -9,6 +9,7 @@ import (
 	"io"
 	"io/ioutil"
 	"log"
+	"net/http"
 	"os"
 	"runtime/metrics"
 	"strings"
@@ -174,6 +175,32 @@ func c10Build() *c10World {
 		bundle.Read(bytes.NewReader(in))
 	}}
 	w.targets = append(w.targets, w.bundleRead)
+	// --- dump-bundle's flow on a hostile signed bundle: Read, then NewVerifier on whatever
+	// signatures section came back, then VerifyExchange on every exchange
+	var sbArts []*c10Artifact
+	for _, b := range c05BaseList {
+		if b.ref.Signatures != nil {
+			sbArts = append(sbArts, &c10Artifact{name: "signed-bundle-" + b.name, data: b.file, fields: b.ref.Fields})
+		}
+	}
+	if real := c10RealSignedBundle(); real != nil {
+		if r, err := refbx.Extract(real); err == nil {
+			sbArts = append(sbArts, &c10Artifact{name: "signed-bundle-real", data: real, fields: r.Fields})
+		}
+	}
+	w.targets = append(w.targets, &c10Target{name: "bundle.Read+signature.NewVerifier+VerifyExchange", artifacts: sbArts, run: func(in []byte) {
+		b, err := bundle.Read(bytes.NewReader(in))
+		if err != nil || b.Signatures == nil {
+			return
+		}
+		v, err := signature.NewVerifier(b.Signatures, c18Date.Add(time.Minute), b.Version)
+		if err != nil {
+			return
+		}
+		for _, e := range b.Exchanges {
+			v.VerifyExchange(e)
+		}
+	}})
 	// --- bundle signatures: hostile signed-subset bytes, properly signed by an authority
 	subset, _ := c18W.subset.Encode()
 	var subFields []refbx.Field
@@ -254,6 +281,40 @@ func c10Build() *c10World {
 		integrityblock.ObtainIntegrityBlock(f)
 	}})
 	return w
+}
+
+// c10RealSignedBundle: a b2 bundle really signed for a.test through the library signer.
+func c10RealSignedBundle() []byte {
+	b := &bundle.Bundle{Version: bversion.VersionB2}
+	for i, u := range []string{"https://a.test/", "https://z.test/other"} {
+		b.Exchanges = append(b.Exchanges, &bundle.Exchange{Request: bundle.Request{URL: c18MustURL(u)},
+			Response: bundle.Response{Status: 200, Header: http.Header{"Content-Type": {"text/plain"}}, Body: []byte(fmt.Sprintf("body %d of a signed bundle", i))}})
+	}
+	chain, err := certurl.NewCertChain([]*x509.Certificate{fixtures.A.Leaf, fixtures.A.CA}, []byte("ocsp"), nil)
+	if err != nil {
+		return nil
+	}
+	sg, err := signature.NewSigner(b.Version, chain, fixtures.A.Key, c18MustURL("https://a.test/validity"), c18Date, time.Hour)
+	if err != nil {
+		return nil
+	}
+	for _, e := range b.Exchanges {
+		if !sg.CanSignForURL(e.Request.URL) {
+			continue
+		}
+		id, err := e.AddPayloadIntegrity(b.Version, 16)
+		if err != nil || sg.AddExchange(e, id) != nil {
+			return nil
+		}
+	}
+	if b.Signatures, err = sg.UpdateSignatures(nil); err != nil {
+		return nil
+	}
+	var buf bytes.Buffer
+	if _, err := b.WriteTo(&buf); err != nil {
+		return nil
+	}
+	return buf.Bytes()
 }
 
 var c10W *c10World
@@ -436,5 +497,4 @@ func init() {
 			return nil
 		},
 	})
-	_ = x509.ParseCertificate
 }
